@@ -1,7 +1,177 @@
-"""Remaining C02 rules (D1, D3, D5) - filled in below."""
-from ..engine import Repo
+"""C02 rules D1 (sibling chains, one unknown-parameter classifier), D3 (type flow carried across
+untyped nodes, same gate direction as run time), D5 (abstract context state updated completely,
+after the node's own parameters were classified)."""
+from __future__ import annotations
+
+import ast
+from typing import Dict, List, Optional, Set, Tuple
+
+from ..cfg import CFG
+from ..engine import (
+    AnalysisError,
+    FuncNode,
+    Repo,
+    ancestors,
+    assigned_value,
+    call_attr,
+    call_name,
+    calls_in,
+    dotted_name,
+    kwarg,
+    norm,
+    stmt_of,
+    walk_no_nested,
+)
 from ..report import Report
+from ._chains import PARAMRES, extract_chain
+
+BUILDER = "semantiva/inspection/builder.py"
+VALIDATOR = "semantiva/inspection/validator.py"
+NODES = "semantiva/pipeline/nodes/nodes.py"
+BPI = "build_pipeline_inspection"
 
 
 def run(repo: Repo, R: Report) -> None:
-    return None
+    # ------------------------------------------------------------------ D1
+    r_sib = R.rule("C02-D1-one-classification", "inspect_origin and resolve_runtime_value consult the channels in the same order (config, context [not deleted], default, then required/KeyError); node constructors and the inspection builder use the same unknown-parameter classifier on the same inputs", 6)
+    io = repo.func(PARAMRES, "inspect_origin")
+    rt = repo.func(PARAMRES, "resolve_runtime_value")
+    ci, cr = extract_chain(io), extract_chain(rt)
+    want_i = [("config", "config"), ("context", "context"), ("default", "default"), ("always", "required")]
+    R.check(ci == want_i, r_sib, PARAMRES, "inspect_origin", f"first-match chain {ci}", f"inspection classifies parameter origins as {ci}, not [config, context(not deleted), default, required]", io.lineno)
+    same = len(ci) == len(cr) and all(a[0] == b[0] for a, b in zip(ci, cr))
+    R.check(same, r_sib, PARAMRES, "inspect_origin ~ resolve_runtime_value", f"guards agree position by position: {[a[0] for a in ci]} vs {[b[0] for b in cr]}", "inspection and run time consult the parameter channels in different orders: the reported origin is not where the run-time value comes from", io.lineno)
+    # origin index reported for context = key_origin[name]
+    rets = [n for n in walk_no_nested(io) if isinstance(n, ast.Return) and isinstance(n.value, ast.Tuple) and isinstance(n.value.elts[0], ast.Constant) and n.value.elts[0].value == "context"]
+    ok = len(rets) == 1 and "key_origin" in ast.unparse(rets[0].value.elts[1]) and "name" in ast.unparse(rets[0].value.elts[1])
+    R.check(ok, r_sib, PARAMRES, "inspect_origin", "context origin index = key_origin[name]", "the producing node reported for a context parameter is not looked up under the parameter's name", io.lineno)
+    sites = []
+    for rel in (NODES, BUILDER):
+        mod = repo.module(rel)
+        for qn, f in [(q, n) for q, n in mod.defs.items() if isinstance(n, FuncNode)]:
+            for c in calls_in(f):
+                if call_attr(c) == "classify_unknown_config_params":
+                    t = repo.resolve_call(mod, c)
+                    ok = len(t) == 1 and t[0][0].rel == PARAMRES
+                    pc, cfg = kwarg(c, "processor_cls"), kwarg(c, "processor_config")
+                    ok = ok and pc is not None and "processor" in ast.unparse(pc) and "__class__" in ast.unparse(pc) and cfg is not None and ast.unparse(cfg).endswith("processor_config")
+                    sites.append((rel, qn, c, ok))
+    for rel, qn, c, ok in sites:
+        R.check(ok, r_sib, rel, qn, norm(c)[:90], "unknown parameters are classified by something other than the shared classifier on (processor class, node configuration)", c.lineno)
+    if len(sites) < 3:
+        raise AnalysisError(f"{len(sites)} call sites of classify_unknown_config_params found (3 confirmed by reading)")
+    # node constructors raise when issues exist
+    nmod = repo.module(NODES)
+    for cls_name in ("_DataNode", "_ContextProcessorNode"):
+        init = repo.func(NODES, f"{cls_name}.__init__")
+        ifs = [n for n in walk_no_nested(init) if isinstance(n, ast.If) and dotted_name(n.test) == "issues"]
+        ok = bool(ifs) and isinstance(ifs[0].body[-1], ast.Raise) and "InvalidNodeParameterError" in ast.unparse(ifs[0].body[-1]) and "i['name']" in ast.unparse(ifs[0].body[-1]).replace('"', "'")
+        R.check(ok, r_sib, NODES, f"{cls_name}.__init__", "if issues: raise InvalidNodeParameterError(invalid={names})", "unknown parameters found by the classifier are not rejected at node construction with the same names", init.lineno)
+
+    # ------------------------------------------------------------------ D3
+    r_flow = R.rule("C02-D3-type-flow-carried", "the data-type check compares each node's input type with the output type of the last node that declared one (carried across context-only nodes), for every node with an input type, in the same direction as the run-time gate; incompatibilities become errors that validate_pipeline raises", 6)
+    vf = repo.func(VALIDATOR, "_validate_data_flow_compatibility")
+    loops = [n for n in walk_no_nested(vf) if isinstance(n, ast.For)]
+    if len(loops) != 1:
+        raise AnalysisError("_validate_data_flow_compatibility: loop not found")
+    lp = loops[0]
+    comp = next((c for c in calls_in(lp) if call_attr(c) == "_is_compatible"), None)
+    if comp is None:
+        raise AnalysisError("_validate_data_flow_compatibility: _is_compatible call not found")
+    prev_expr, next_expr = comp.args[0], comp.args[1]
+    prev_root = prev_expr.value.id if isinstance(prev_expr, ast.Attribute) and isinstance(prev_expr.value, ast.Name) else None
+    # loop-carried: a variable assigned in the body that is read earlier in the body (or before the assignment) on the next iteration
+    carried = set()
+    body_assigned = {t.id for n in ast.walk(lp) if isinstance(n, ast.Assign) for t in n.targets if isinstance(t, ast.Name)}
+    pre_loop = {t.id for n in walk_no_nested(vf) if isinstance(n, ast.Assign) and n.lineno < lp.lineno for t in n.targets if isinstance(t, ast.Name)}
+    carried = body_assigned & pre_loop
+    feeds = False
+    if prev_root:
+        roots = {prev_root}
+        for v in assigned_value(vf, prev_root):
+            roots |= {x.id for x in ast.walk(v) if isinstance(x, ast.Name)}
+        feeds = bool(roots & carried)
+    adjacency = any(isinstance(s, ast.Subscript) and isinstance(s.slice, ast.BinOp) for s in ast.walk(lp))
+    R.check(feeds and not adjacency, r_flow, VALIDATOR, "_validate_data_flow_compatibility", f"predecessor type comes from a loop-carried variable {sorted(carried)}", "the check compares adjacent nodes only: a type change separated by a context-only node is accepted and fails with TypeError at run time", lp.lineno)
+    # the carried variable is updated for every node that declares an output type
+    lv = lp.target.id if isinstance(lp.target, ast.Name) else None
+    ups = [n for n in ast.walk(lp) if isinstance(n, ast.Assign) and any(isinstance(t, ast.Name) and t.id in carried for t in n.targets) and dotted_name(n.value) == lv]
+    ok = bool(ups)
+    for u in ups:
+        tests = [a.test for a in ancestors(u) if isinstance(a, ast.If) and a is not lp]
+        for t in tests:
+            simple = (isinstance(t, ast.Compare) and len(t.ops) == 1 and isinstance(t.ops[0], ast.IsNot) and isinstance(t.comparators[0], ast.Constant) and t.comparators[0].value is None and ast.unparse(t.left) == f"{lv}.output_type") or ast.unparse(t) == f"{lv}.output_type"
+            ok = ok and simple
+    R.check(ok, r_flow, VALIDATOR, "_validate_data_flow_compatibility", "carried predecessor := node whenever node.output_type is not None", "the carried predecessor is not updated for every typed node (e.g. skipped for type-preserving nodes): leading nodes are never checked and an incompatible pipeline is accepted", lp.lineno)
+    # skip conditions
+    conts = [n for n in ast.walk(lp) if isinstance(n, ast.If) and any(isinstance(x, ast.Continue) for x in n.body)]
+    ok = True
+    for c in conts:
+        names = {ast.unparse(x) for x in ast.walk(c.test) if isinstance(x, (ast.Attribute, ast.Name)) and isinstance(getattr(x, "ctx", None), ast.Load) and not isinstance(getattr(x, "_parent", None), ast.Attribute)}
+        allowed = {prev_root or "", f"{lv}.input_type", f"{prev_root}.output_type"}
+        ok = ok and names <= allowed
+    R.check(ok, r_flow, VALIDATOR, "_validate_data_flow_compatibility", "nodes are skipped only when there is no typed predecessor or no input type", "typed nodes are skipped by an additional condition", lp.lineno)
+    R.check(ast.unparse(prev_expr).endswith(".output_type") and ast.unparse(next_expr) == f"{lv}.input_type", r_flow, VALIDATOR, "_validate_data_flow_compatibility", norm(comp), "compatibility is not tested as (predecessor output, this input)", comp.lineno)
+    ic = repo.func(VALIDATOR, "_is_compatible")
+    p0, p1 = ic.args.args[0].arg, ic.args.args[1].arg
+    iss = [c for c in ast.walk(ic) if isinstance(c, ast.Call) and call_attr(c) == "issubclass"]
+    ok = len(iss) == 1 and [dotted_name(a) for a in iss[0].args] == [p0, p1]
+    R.check(ok, r_flow, VALIDATOR, "_is_compatible", f"issubclass({p0}, {p1})", "inspection's compatibility rule is not the run-time gate's direction issubclass(output, input)", ic.lineno)
+    errs = [c for c in calls_in(lp) if call_attr(c) == "append" and "errors" in ast.unparse(c.func)]
+    vp = repo.func(VALIDATOR, "validate_pipeline")
+    ok = bool(errs) and any(call_attr(c) == "_validate_data_flow_compatibility" for c in calls_in(vp)) and any(isinstance(n, ast.If) and any(isinstance(x, ast.Raise) for x in n.body) for n in walk_no_nested(vp)) and "node.errors" in ast.unparse(vp).replace("n.errors", "node.errors")
+    R.check(ok, r_flow, VALIDATOR, "validate_pipeline", "flow errors are recorded on the node and raised by validate_pipeline", "a detected incompatibility does not make validation fail", vp.lineno)
+
+    # ------------------------------------------------------------------ D5
+    r_state = R.rule("C02-D5-context-state", "per node, after its own parameters were classified: every created key (incl. a probe's context_key) is recorded as produced by *this* node and un-deleted; suppressed keys of context processors become deleted; classification reads the live key_origin/deleted_keys", 7)
+    bf = repo.func(BUILDER, BPI)
+    loop = next((n for n in walk_no_nested(bf) if isinstance(n, ast.For) and "node_configs" in ast.unparse(n.iter)), None)
+    if loop is None:
+        raise AnalysisError("build_pipeline_inspection: main loop not found")
+    idx = loop.target.elts[0].id if isinstance(loop.target, ast.Tuple) else None
+    stores = [n for n in ast.walk(loop) if isinstance(n, ast.Assign) and any(isinstance(t, ast.Subscript) and dotted_name(t.value) == "key_origin" for t in n.targets)]
+    sd = [c for c in calls_in(loop) if call_attr(c) in ("setdefault",) and dotted_name(c.func.value) == "key_origin"]
+    R.check(not sd, r_state, BUILDER, BPI, "no key_origin.setdefault(...)", "the first writer of a key is kept as its origin: after a key is re-created the reported origin of a later reader points at the wrong node", sd[0].lineno if sd else loop.lineno)
+    created_loop = [n for n in ast.walk(loop) if isinstance(n, ast.For) and dotted_name(n.iter) == "created_keys"]
+    ok = False
+    if created_loop:
+        body = created_loop[0]
+        k = body.target.id if isinstance(body.target, ast.Name) else None
+        st = [s for s in stores if any(a is body for a in ancestors(s))]
+        ok = bool(st) and all(dotted_name(s.value) == idx and ast.unparse(s.targets[0]) == f"key_origin[{k}]" and not [a for a in ancestors(s) if isinstance(a, ast.If) and any(a2 is body for a2 in ancestors(a))] for s in st)
+        undelete = any(isinstance(c, ast.Call) and call_attr(c) in ("remove", "discard") and dotted_name(c.func.value) == "deleted_keys" for c in ast.walk(body))
+        ok = ok and undelete
+    R.check(ok, r_state, BUILDER, BPI, "for key in created_keys: key_origin[key] = index (unconditionally) and un-delete", "created keys are not all recorded as produced by the current node / re-created keys stay marked deleted", loop.lineno)
+    ck_defs = [n for n in ast.walk(loop) if isinstance(n, ast.Assign) and any(dotted_name(t) == "created_keys" for t in n.targets)]
+    ok = any("get_ck()" in ast.unparse(n.value) or "get_created_keys" in ast.unparse(n.value) for n in ck_defs)
+    R.check(ok, r_state, BUILDER, BPI, "created_keys = set(processor.get_created_keys())", "created keys are not taken from the processor's declaration", loop.lineno)
+    probe_add = [c for c in calls_in(loop) if call_attr(c) == "add" and dotted_name(c.func.value) == "created_keys" and "context_key" in ast.unparse(c)]
+    R.check(bool(probe_add) and any(isinstance(a, ast.If) and "_ProbeContextInjectorNode" in ast.unparse(a.test) for a in ancestors(probe_add[0])) if probe_add else False, r_state, BUILDER, BPI, "probe nodes: created_keys.add(node.context_key)", "a probe's context key is not recorded as created by the probe node", loop.lineno)
+    sup = [c for c in calls_in(loop) if call_attr(c) == "update" and dotted_name(c.func.value) == "deleted_keys"]
+    ok = bool(sup) and "suppressed_keys" in ast.unparse(sup[0]) and any("get_suppressed_keys()" in ast.unparse(v) for v in [n.value for n in ast.walk(loop) if isinstance(n, ast.Assign) and any(dotted_name(t) == "suppressed_keys" for t in n.targets)])
+    R.check(ok, r_state, BUILDER, BPI, "deleted_keys.update(node.get_suppressed_keys())", "keys a context processor removes are not marked deleted: a later reader is reported as satisfied by context", loop.lineno)
+    ioc = [c for c in calls_in(loop) if call_attr(c) == "inspect_origin"]
+    ok = len(ioc) == 1 and dotted_name(kwarg(ioc[0], "key_origin")) == "key_origin" and dotted_name(kwarg(ioc[0], "deleted_keys")) == "deleted_keys" and "processor_config" in ast.unparse(kwarg(ioc[0], "processor_config") or ast.Constant(value=""))
+    R.check(ok, r_state, BUILDER, BPI, "inspect_origin(..., key_origin=key_origin, deleted_keys=deleted_keys)", "parameter origins are not classified against the live per-node context state", loop.lineno)
+    # ordering: classification before this node's own stores
+    g = CFG(bf, may_raise=lambda p: set())
+    heads = set(g.nodes_for(loop))
+    store_ids = [nid for s in stores for nid in g.nodes_for(s)] + [nid for c in sup for nid in g.nodes_for(stmt_of(c))]
+    saved = {h: g.succ[h] for h in heads}
+    for h in heads:
+        g.succ[h] = []
+    try:
+        after = g.reach(store_ids)
+    finally:
+        for h, v in saved.items():
+            g.succ[h] = v
+    late = [c for c in ioc if any(nid in after for nid in g.nodes_for(stmt_of(c)))]
+    # the for-header that contains the call
+    for c in ioc:
+        for a in ancestors(c):
+            if isinstance(a, ast.For) and a is not loop and any(nid in after for nid in g.nodes_for(a)):
+                late.append(c)
+    R.check(not late, r_state, BUILDER, BPI, "parameters are classified before the node's created/suppressed keys are registered", "a node's own created keys are visible while its parameters are classified: a node that requires and creates the same key satisfies itself", loop.lineno)
+    md = [n for n in ast.walk(loop) if isinstance(n, ast.Assign) and any(dotted_name(t) == "missing_deleted" for t in n.targets)]
+    ok = bool(md) and "required_params" in ast.unparse(md[0].value) and "deleted_keys" in ast.unparse(md[0].value) and any(call_attr(c) == "append" and dotted_name(c.func.value) == "node_errors" and any(isinstance(a, ast.If) and "missing_deleted" in ast.unparse(a.test) for a in ancestors(c)) for c in calls_in(loop))
+    R.check(ok, r_state, BUILDER, BPI, "required ∩ deleted keys -> node error", "requiring a key that an earlier node deleted is not reported", loop.lineno)
